@@ -150,7 +150,11 @@ func buildAsync(x *Exec, s *AsyncScn) *asyncSys {
 		for i := range s.Refs {
 			a := &RecAppender{AppenderBase: log.AppenderBase{Name: fmt.Sprintf("rec%d", i)}}
 			a.Start()
-			refs = append(refs, &log.AppenderRef{Appender: a, Ref: a.Name, Level: levelRangeOf(sys.refRanges[i])})
+			ref := &log.AppenderRef{Appender: a, Ref: a.Name, Level: levelRangeOf(sys.refRanges[i])}
+			if s.Knobs.MapSeed%2 == 1 {
+				ref.Ref = "" // references built in code need not carry a name
+			}
+			refs = append(refs, ref)
 		}
 		base := log.LoggerBase{Name: "alog", Level: levelRangeOf(sys.logRange)}
 		if s.LLayout == "JSONLayout" {
